@@ -14,6 +14,7 @@ def load_worlds():
     import worlds.stream            # noqa: F401
     import worlds.hist              # noqa: F401
     import worlds.enip_client       # noqa: F401
+    import worlds.enip_interop      # noqa: F401
     _loaded = True
 
 
@@ -196,5 +197,18 @@ PROPS = {
         assumptions=['client timeouts, poll cycle and back-off run on the virtual clock'],
         quick=dict(parts=[dict(world='c13', count=320)]),
         thorough=dict(parts=[dict(world='c13', count=8000)], sweep=dict(world='c13', streams=16)),
+    ),
+    'C14': dict(
+        level='exploration',
+        rule=('(A) one seed -> unmodified pylogix.PLC on a sim-thread (its socket module bound to the simulated network; client->server '
+              'bytes re-segmented arbitrarily, server->pylogix frames cut only after the length field): connect (Register + large '
+              'Forward Open, falling back to small), 4..25 calls: Read(tag[i], n), Write(tag[i], values), list reads (multi-service), '
+              'arrays larger than one reply (fragment walk), out-of-range and unknown tags, over SINT..ULINT, REAL, LREAL, scalar BOOL; '
+              'values/success equal the array model; Close(): Forward Close answered, Unregister not answered, connection thread ended, '
+              'no entry left in Connection_Manager.forwards.  (B) the C03 histories with strict reference decoding of every reply over '
+              'connected and unconnected sessions; non-trivial = >= 3 calls compared and a clean close'),
+        assumptions=['pylogix 1.1.6 as installed in /venv is the independent client', 'pylogix BOOL arrays (packed DWORDs) are not driven'],
+        quick=dict(parts=[dict(world='c14', count=320), dict(world='c03', count=120)]),
+        thorough=dict(parts=[dict(world='c14', count=16000), dict(world='c03', count=6000)]),
     ),
 }
